@@ -514,6 +514,19 @@ def subprocess_cases(rng, n):
         if rng.random() < 0.35:
             names = [rng.choice([c['name'] for c in classes])]
             args += names
+        elif rng.random() < 0.2:
+            # a name that does not exist (a renamed class, a removed test): unittest reports an error, whatever the tag options
+            names = [rng.choice(['TestRenamed', classes[0]['name'] + '.test_gone'])]
+            if rng.random() < 0.7:
+                names = [rng.choice(classes)['name']] + names
+            if rng.random() < 0.6 and mode in ('none', 'check'):
+                mode = 'tagged'
+                args.insert(0, rng.choice(['-1', '--tagged']))
+                args.sort(key=lambda a: (a.startswith('--'), 0))
+            args += names
+            out.append({'kind': 'run', 'classes': classes, 'args': args, 'names': names, 'missing_name': True,
+                        'tagged': mode in ('tagged', 'both'), 'check': mode in ('check', 'both')})
+            continue
         elif rng.random() < 0.3:
             # an individual test named as Class.method
             cands = ['%s.%s' % (c['name'], m) for i, c in enumerate(classes) for m in sorted(all_methods(classes, i))]
@@ -531,6 +544,12 @@ def oracle_run(case):
     F = []
     fail = lambda clause, detail, key=None: F.append(core.Failure(clause, case, detail, key or clause))
     r = run_module(case['classes'], case['args'])
+    if case.get('missing_name'):
+        # "class names ... keep their usual meaning": a name unittest cannot resolve is an error of the run
+        if not case['check'] and r['rc'] == 0:
+            fail('run-missing-name', 'args %r name a test that does not exist, and the run exits 0 (%s)'
+                 % (case['args'], (r['stderr'] or '')[-160:]), 'run-missing-name')
+        return F
     if case['names'] and '.' in case['names'][0]:
         run = expected_for_method_name(case['classes'], case['tagged'], case['check'], case['names'][0])
         if run is not None and sorted(r['ran']) != run:
